@@ -665,6 +665,22 @@ pub fn run(session: &Session) -> i32 {
     for p in corpus() {
         cases.push(json!({"src": "corpus", "text": p}));
     }
+    // the same programs with every blank written another way (tab, line end, comment, two blanks):
+    // what separates tokens is not part of any token
+    let mut spaced = vec![];
+    for c in &cases {
+        let src = c["src"].as_str().unwrap_or("");
+        if matches!(src, "control-placement" | "redeclaration" | "binder-scope" | "missing-return" | "imports" | "corpus" | "duplicate-names") {
+            let text = c["text"].as_str().unwrap_or("");
+            for (k, blank) in ["\t", "\n", " /* c */ ", "  ", " // c\n"].iter().enumerate() {
+                // (a fifth of the catalogue per spelling keeps the tier small; every program gets one spelling)
+                if (text.len() + k) % 5 == 0 || src == "corpus" {
+                    spaced.push(json!({"src": "blanks", "text": text.replace(' ', blank)}));
+                }
+            }
+        }
+    }
+    cases.extend(spaced);
     session.set_extra("enumerated_cases", json!(cases.len()));
     session.set_extra("token_alphabet", json!(TOKENS.len()));
     session.set_extra("grammar_rules", json!(grammar().rule_names().len()));
